@@ -19,3 +19,33 @@ Definition for_first (a b : Z) (P : Z -> result bool) (d : result Z) : result Z 
 (** Python's [seq[i]] for a non-negative index. *)
 Definition seq_get {A} (l : list A) (i : Z) : result A :=
   match nth_Z l i with Some x => Ok x | None => Err EIndex end.
+
+(** The second loop shape:
+      for index in range(a, b):
+          if P(index): break
+      ... index ...
+    whose loop variable outlives the loop: the first index at which the test holds, else the last one (b - 1).
+    With an empty range the variable is unbound in Python (UnboundLocalError): [Err EOther]. *)
+Fixpoint for_break_fuel (fuel : nat) (a b : Z) (P : Z -> result bool) : result Z :=
+  match fuel with
+  | O => Err EOther
+  | S f => let* p := P a in
+           if p then Ok a else if b <=? a + 1 then Ok a else for_break_fuel f (a + 1) b P
+  end.
+
+Definition for_break (a b : Z) (P : Z -> result bool) : result Z :=
+  if b <=? a then Err EOther else for_break_fuel (Z.to_nat (b - a)) a b P.
+
+(** The third loop shape, an accumulation that hands each step the previous result:
+      events = []
+      for data in datas:
+          prev = events[-1] if events else None
+          events.append(f(data, prev))
+*)
+Fixpoint fold_prev_aux {A B} (f : A -> option B -> result B) (l : list A) (prev : option B) : result (list B) :=
+  match l with
+  | [] => Ok []
+  | x :: xs => let* e := f x prev in let* es := fold_prev_aux f xs (Some e) in Ok (e :: es)
+  end.
+
+Definition fold_prev {A B} (f : A -> option B -> result B) (l : list A) : result (list B) := fold_prev_aux f l None.
